@@ -304,10 +304,35 @@ def excluded_properties(h, gb, wd):
 
 
 def solve(h, gb, wd):
+    """CBMC reports checks that depend on a failed generated check as UNKNOWN.  Iterate: keep the failures found
+    so far, take them out of the selection and re-run until every remaining property has a verdict."""
+    sel_args, excluded, n_sel = excluded_properties(h, gb, wd)
+    failed_so_far = []
+    v = None
+    for rnd in range(6):
+        v = solve_once(h, gb, wd, sel_args, n_sel, time_left=h.timeout)
+        v["excluded"] = excluded
+        unknown = [r for r in v["results"] if r["status"] == "UNKNOWN"]
+        fails = [r for r in v["results"] if r["status"] == "FAILURE"]
+        if not unknown:
+            break
+        if not fails:
+            raise ToolError("cbmc left %d properties UNKNOWN without reporting a failure" % len(unknown))
+        failed_so_far += fails
+        keep = [r["property"] for r in v["results"] if r["status"] != "FAILURE"]
+        sel_args, n_sel = [], len(keep)
+        for k in keep:
+            sel_args += ["--property", k]
+    else:
+        raise ToolError("properties still UNKNOWN after 6 rounds")
+    v["results"] = failed_so_far + v["results"]
+    return v
+
+
+def solve_once(h, gb, wd, sel_args, n_sel, time_left):
     """Run the solver portfolio; first definitive verdict wins.  Returns dict."""
     procs = {}
     outs = {}
-    sel_args, excluded, n_sel = excluded_properties(h, gb, wd)
     t0 = time.time()
     for s in h.solvers:
         _slots.acquire()
@@ -334,7 +359,7 @@ def solve(h, gb, wd):
                                            p.returncode, "; ".join((res or {}).get("errors", []))[-400:], stderr))}
                     else:
                         res["definitive"] = not res["errors"] and all(
-                            r["status"] in ("SUCCESS", "FAILURE") for r in res["results"])
+                            r["status"] in ("SUCCESS", "FAILURE", "UNKNOWN") for r in res["results"])
                         res["why"] = "; ".join(res["errors"])[-400:] if res["errors"] else ""
                         res["wall_s"] = time.time() - t0
                         res["cmd"] = " ".join(cmd)
@@ -362,7 +387,6 @@ def solve(h, gb, wd):
         raise ToolError("back ends disagree: %s" % {s: sorted(x) for s, x in sets.items()})
     s, v = min(good, key=lambda sv: sv[1]["wall_s"])
     v["backend"] = s
-    v["excluded"] = excluded
     if n_sel is not None and len(v["results"]) != n_sel:
         raise ToolError("selected %d properties but cbmc reported %d" % (n_sel, len(v["results"])))
     v["cmd"] = re.sub(r"( --property \S+)+", " --property <all but the accepted check classes>", v["cmd"])
@@ -388,7 +412,7 @@ def fetch_traces(h, gb, wd, backend, ids):
 def cover_pass(h, wd):
     gb = build(h, wd, cover=True)
     outp = os.path.join(wd, "cover.json")
-    cmd = cbmc_cmd(h, gb, h.solvers[0], ["--cover", "cover"], cover=True)
+    cmd = cbmc_cmd(h, gb, h.solvers[0], ["--cover", "cover", "--cover-failed-assertions"], cover=True)
     with _slots:
         rc, o, e = run(cmd, h.timeout, stdout_path=outp)
     if rc is None:
@@ -495,7 +519,7 @@ def native_replay(h, replay_path, wd):
     Returns (reproduced: bool, text)."""
     exe = os.path.join(wd, "native")
     fl = [f for f in include_flags(h) if f != "-DVERIF_CBMC"]
-    cmd = ["clang", "-g", "-O0", "-w", "-fsanitize=address,undefined", "-fno-sanitize-recover=undefined",
+    cmd = ["clang", "-g", "-O0", "-w", "-fsanitize=address,undefined", "-fno-sanitize=shift-base", "-fno-sanitize-recover=undefined",
            "-DVERIF_NATIVE"] + (["-m32"] if False else []) + fl + \
           [os.path.join(VERIF, h.src), os.path.join(VERIF, "contracts", "verif_native.c"), "-o", exe, "-lm"]
     if not os.path.exists(exe):
